@@ -258,6 +258,20 @@ def el_clip_values(g):
             f'<use href="#pct" x="{g.p()}" y="{g.p()}"/><use href="#unit" x="{g.p()}"/>')
 
 
+def el_clip_nobox(g):
+    # a clip path whose content has no computable box (percentages, units, nothing at all) clips shapes, groups and text alike
+    return (f'<defs><clipPath id="cpp"><rect width="100%" height="50%"/></clipPath><clipPath id="cpe"></clipPath><clipPath id="cpu"><circle cx="1cm" cy="1cm" r="5mm"/></clipPath></defs>'
+            f'<rect x="{g.p()}" y="{g.p()}" width="{g.s()}" height="{g.s()}" clip-path="url(#cpp)"/><circle cx="{g.p()}" cy="{g.p()}" r="{g.s()}" clip-path="url(#cpe)"/>'
+            f'<ellipse cx="{g.p()}" cy="{g.p()}" rx="{g.s()}" ry="{g.s()}" clip-path="url(#cpu)"/><line x1="{g.p()}" y1="{g.p()}" x2="{g.p()}" y2="{g.p()}" clip-path="url(#cpp)"/>'
+            f'<g clip-path="url(#cpp)"><rect width="{g.s()}" height="{g.s()}"/></g><use href="#cpt" x="{g.p()}" y="{g.p()}" clip-path="url(#cpu)"/><defs><rect id="cpt" width="{g.s()}" height="{g.s()}"/></defs>')
+
+
+def el_ids_unicode(g):
+    # ids are XML names: letters of any script
+    return (f'<defs><rect id="größe" width="{g.s()}" height="{g.s()}"/><rect id="слой-2" width="{g.s()}" height="{g.s()}"/><clipPath id="图标"><rect width="{g.s()}" height="{g.s()}"/></clipPath></defs>'
+            f'<use href="#größe" x="{g.p()}" y="{g.p()}"/><use href="#слой-2" x="{g.p()}"/><rect id="é1" x="{g.p()}" y="{g.p()}" width="{g.s()}" height="{g.s()}" clip-path="url(#图标)"/>')
+
+
 def el_transform_ws(g):
     # white space (line breaks included) and commas may surround and separate the items of a transform list
     return (f'<rect width="{g.s()}" height="{g.s()}" transform="translate({g.p()},{g.p()}) "/><rect width="{g.s()}" height="{g.s()}" transform=" rotate({g.p()})"/>'
@@ -273,7 +287,7 @@ def el_transforms(g):
             f'<text x="{g.p()}" y="{g.p()}" transform="rotate({g.p()})">t</text><use href="#trf" x="{g.p()}" y="{g.p()}" transform="skewX({g.p()})"/><defs><rect id="trf" width="1" height="1"/></defs>')
 
 
-LEAF = {"clip-values": el_clip_values, "transform-ws": el_transform_ws, "use-centred": el_use_centred, "line-partial": el_line_partial, "text-forms": el_text_forms, "points-ws": el_points_ws, "fine-decimals": el_fine_decimals, "comment-text": el_comment_text, "mixed-units": el_mixed_units, "nonshape-attrs": el_nonshape_attrs, "text-dx-carriers": el_text_dx_carriers, "transforms": el_transforms, "partial": el_partial, "openclose": el_openclose, "use-partial": el_use_partial, "rect": el_rect, "rect0": el_rect0, "circle": el_circle, "ellipse": el_ellipse, "line": el_line, "polyline": el_polyline, "polygon": el_polygon, "path-abs": el_path_abs,
+LEAF = {"clip-values": el_clip_values, "clip-nobox": el_clip_nobox, "ids-unicode": el_ids_unicode, "transform-ws": el_transform_ws, "use-centred": el_use_centred, "line-partial": el_line_partial, "text-forms": el_text_forms, "points-ws": el_points_ws, "fine-decimals": el_fine_decimals, "comment-text": el_comment_text, "mixed-units": el_mixed_units, "nonshape-attrs": el_nonshape_attrs, "text-dx-carriers": el_text_dx_carriers, "transforms": el_transforms, "partial": el_partial, "openclose": el_openclose, "use-partial": el_use_partial, "rect": el_rect, "rect0": el_rect0, "circle": el_circle, "ellipse": el_ellipse, "line": el_line, "polyline": el_polyline, "polygon": el_polygon, "path-abs": el_path_abs,
         "path-rel": el_path_rel, "path-arc": el_path_arc, "text": el_text, "text-tspan": el_text_tspan, "use": el_use, "image": el_image, "foreignObject": el_foreign,
         "linearGradient": el_lingrad, "radialGradient": el_radgrad, "marker": el_marker, "clipPath": el_clip, "mask": el_mask, "pattern": el_pattern, "filter": el_filter, "symbol": el_symbol,
         "title": el_title, "units": el_units, "style": el_style}
